@@ -599,6 +599,22 @@ func rulesC12(w *World, o *Out) {
 	if cak != nil {
 		ok := semverRefuses(fl, cak)
 		o.Check("C12.R3", "CanAcceptKeepAlive|refuses versions below the minimum", ok, w.Pos(cak.Pos()), "semver.Compare(version, MinVersion) < 0 must lead to an error")
+		// ... on every accepting path: no success return (fast path, renewal shortcut) bypasses the comparison
+		// against the minimum in force now
+		for r := range SuccessReturns(cak) {
+			held := false
+			for _, fa := range FactsAt(r) {
+				if fa.Kind == FCmp && fa.Op == token.GEQ {
+					if k, isC := canon(fa.Y).(*ssa.Const); isC && k.Value != nil && k.Int64() == 0 {
+						if c := fl.DependsOnCall(fa.X, isCallee("golang.org/x/mod/semver", "", "Compare")); c != nil &&
+							fl.DependsOnCall(fa.Resolve(c.Call.Args[1]), isCallee(vsk, "Keeper", "PigeonRequirements")) != nil {
+							held = true
+						}
+					}
+				}
+			}
+			o.Check("C12.R3", "CanAcceptKeepAlive|every acceptance is compared with the current minimum version", held, w.Pos(r.Pos()), "a nil return must be dominated by semver.Compare(version, PigeonRequirements().MinVersion) >= 0; a shortcut for renewals keeps an outdated relayer alive after the minimum was raised")
+		}
 	}
 	nMin := 0
 	for _, name := range []string{"SetPigeonRequirements", "SetScheduledPigeonRequirements"} {
@@ -900,6 +916,66 @@ func rulesC13(w *World, o *Out) {
 		}
 		o.Check("C13.R1", w.FuncKey(ws.f)+"|issued checkpoint is archived", ok, w.Pos(ws.in.Pos()),
 			d+"; otherwise a validator's genuine signature over the published checkpoint can later be submitted as bad-signature evidence against it")
+		// ... of the batch as written: whatever parameter content the archived checkpoint's batch is read from must
+		// also be what the written batch is read from (a stale copy handed in by the caller is not the batch written)
+		if ok {
+			var written ssa.Value
+			if c, isC := ws.in.(ssa.CallInstruction); isC {
+				if a := c.Common().Args; len(a) > 0 {
+					written = a[len(a)-1]
+				}
+			}
+			wAps, _ := fl.Influence(written)
+			okSame := written != nil
+			detail := ""
+			for _, a := range arch {
+				gc := fl.DependsOnCall(a.Args()[len(a.Args())-1], isCallee("", "", "GetCheckpoint"))
+				if gc == nil || len(gc.Call.Args) == 0 {
+					continue
+				}
+				rAps, _ := fl.Influence(gc.Call.Args[0])
+				// a receiver named by a parameter of a helper introduced later: the argument at the call in ws.f
+				mapped := map[AP]bool{}
+				for ap := range rAps {
+					q, isP := ap.Root.(*ssa.Parameter)
+					if isP && q.Parent() != ws.f && isNewHelper(q.Parent()) {
+						if via, okV := viaOf[viaKey{ws.f, a.Instr}]; okV {
+							if vc, isVC := via.(ssa.CallInstruction); isVC && vc.Common().StaticCallee() == q.Parent() {
+								for i, hp := range q.Parent().Params {
+									if hp == q && i < len(vc.Common().Args) {
+										x, _ := fl.Influence(vc.Common().Args[i])
+										for xa := range x {
+											mapped[AP{xa.Root, xa.Path + ap.Path}] = true
+										}
+									}
+								}
+								continue
+							}
+						}
+					}
+					mapped[ap] = true
+				}
+				for ap := range mapped {
+					q, isP := ap.Root.(*ssa.Parameter)
+					if !isP || q.Parent() != ws.f || isReceiver(ws.f, q) || isCtxParam(q) {
+						continue
+					}
+					covered := false
+					for wp := range wAps {
+						// compared by the field of the parameter that is read ("" = the parameter as a whole)
+						if wp.Root == ap.Root && (firstSeg(wp.Path) == firstSeg(ap.Path) || wp.Path == "") {
+							covered = true
+						}
+					}
+					if !covered {
+						okSame = false
+						detail = "the archived checkpoint reads " + ap.String() + ", which the written batch does not derive from"
+					}
+				}
+			}
+			o.Check("C13.R1", w.FuncKey(ws.f)+"|the archived checkpoint is that of the batch written", okSame, w.Pos(ws.in.Pos()),
+				"the checkpoint put into the archive must be computed from the batch that is written (after a gas estimate is elected: the re-read, updated batch), not from another copy. "+detail)
+		}
 	}
 	o.Count("C13.R1 batch write sites outside genesis", n, 2)
 	for _, m := range muts {
@@ -1092,4 +1168,17 @@ func valNames(vs []ssa.Value) string {
 		out = append(out, v.Name()+"="+v.String())
 	}
 	return "[" + strings.Join(out, "; ") + "]"
+}
+
+// firstSeg: the first field of an access path (".A.B[]" -> ".A"; "" stays "").
+func firstSeg(p string) string {
+	if p == "" {
+		return ""
+	}
+	for i := 1; i < len(p); i++ {
+		if p[i] == '.' || p[i] == '[' {
+			return p[:i]
+		}
+	}
+	return p
 }
